@@ -418,7 +418,7 @@ func verifRunC19(c *verifC19Case) (out *verifC19Out) {
 	}
 
 	// ---- wait for the quiet state: everything delivered and (where visible) acknowledged and
-	// stable for 30 ms; give up after 3 s (the flusher period is 100 ms, the ack tick 10 ms)
+	// stable for 30 ms; give up after 3 s + 1 s per 1000 data points (the flusher period is 100 ms, the ack tick 10 ms)
 	quiet := func() bool {
 		if sink.count() < total {
 			return false
@@ -433,7 +433,9 @@ func verifRunC19(c *verifC19Case) (out *verifC19Out) {
 		}
 		return true
 	}
-	deadline := time.Now().Add(3 * time.Second)
+	// 3 s, plus time for the receiver to convert and deliver large batches (generous: the thorough
+	// tier runs under the race detector)
+	deadline := time.Now().Add(3*time.Second + time.Duration(total/1000)*time.Second)
 	for time.Now().Before(deadline) {
 		if quiet() {
 			out.QuietMs = time.Since(done).Milliseconds()
